@@ -207,3 +207,33 @@ Proof.
     match type of H with rmap _ ?r = _ => destruct r; try discriminate end;
     simpl in H; rewrite ?N.eqb_refl in H; injection H as <-; simpl; auto.
 Qed.
+
+(* ---------------------------------------------------------------- histories *)
+Theorem h_spec_model steps : forall g,
+  h_wf steps = true -> h_kf g steps = 0%N -> h_spec g steps (h_run g steps) = true.
+Proof.
+  induction steps as [|st r IH]; intros g Hw Hk; [reflexivity|].
+  destruct st as [p s o sp|t|t]; simpl in *; auto.
+  apply andb_true_iff in Hw. destruct Hw as [Hp Hr].
+  destruct (N.eqb_spec (kf (hc g p s o sp)) 0) as [Hz|Hz]; [|contradiction].
+  apply andb_true_iff. split; [apply spec_ok_model; auto|auto].
+Qed.
+
+(* every evaluation of an accepted history is answered from the graph as it is at that moment *)
+Theorem h_spec_reading steps : forall g os,
+  h_spec g steps os = true ->
+  forall pre p s o sp post, steps = pre ++ HEval p s o sp :: post ->
+  let g' := fold_left (fun g st => match st with HAdd t => g_add t g | HDel t => g_del t g | _ => g end) pre g in
+  exists ob, spec_ok (hc g' p s o sp) ob = true /\ In ob os.
+Proof.
+  induction steps as [|st r IH]; intros g os H pre p s o sp post Heq.
+  - destruct pre; discriminate.
+  - destruct pre as [|st' pre]; simpl in Heq; injection Heq as -> ->.
+    + simpl in *. destruct os as [|ob os']; [discriminate|].
+      apply andb_true_iff in H. destruct H as [H _]. exists ob. simpl; auto.
+    + destruct st' as [p' s' o' sp'|t|t]; simpl in H |- *.
+      * destruct os as [|ob os']; [discriminate|]. apply andb_true_iff in H. destruct H as [_ H].
+        destruct (IH g os' H pre p s o sp post eq_refl) as (ob' & ? & ?). exists ob'. simpl; auto.
+      * exact (IH _ os H pre p s o sp post eq_refl).
+      * exact (IH _ os H pre p s o sp post eq_refl).
+Qed.
